@@ -207,6 +207,10 @@ def prop_history(ctx, case):
         exp = [(b['ts'], b['tid'], b['text']) for b in bases[fi]]
         if got != exp:
             raise Violation('residue-after-history', describe(f'unfiltered request on dump {fi} after the history', got, exp, None))
+        gotl = guard(lambda: list(parser.formatted_traces(BudgetReader(blob))))
+        expl = [b['line'] for b in bases[fi]]
+        if gotl != expl:
+            raise Violation('residue-after-history', describe(f'unfiltered formatted request on dump {fi} after the history', gotl, expl, None))
         fresh_now = guard(lambda: [(t.ktraces[0].timestamp, t.ktraces[0].tid, str(t)) for t in fresh().traces(BudgetReader(blob))])
         if fresh_now != exp:
             raise Violation('residue-across-objects', describe(f'a FRESH parser on dump {fi} after the history (state kept outside the object)', fresh_now, exp, None))
